@@ -213,7 +213,12 @@ func genCase(t *rapid.T) Case {
 			s.Exts = append(s.Exts, gen.Ext{OID: gen.OIDAKI, Value: gen.TLV(0x30, gen.TLV(0x80, kid))})
 		}
 		if rapid.IntRange(0, 2).Draw(t, "x_unk") == 0 {
-			s.Exts = append(s.Exts, gen.UnknownExt(rapid.IntRange(0, 5000).Draw(t, "unklen"), false))
+			if rapid.IntRange(0, 7).Draw(t, "x_unk_giant") == 0 {
+				// extension block in the 3-length-byte class (64..80 KiB)
+				s.Exts = append(s.Exts, gen.UnknownExt(rapid.IntRange(65500, 81000).Draw(t, "unklen_g"), false))
+			} else {
+				s.Exts = append(s.Exts, gen.UnknownExt(rapid.IntRange(0, 5000).Draw(t, "unklen"), false))
+			}
 		}
 		if rapid.IntRange(0, 3).Draw(t, "x_fresh") == 0 {
 			s.Exts = append(s.Exts, gen.Ext{OID: gen.OIDFreshest, Value: gen.TLV(0x30)})
@@ -222,12 +227,19 @@ func genCase(t *rapid.T) Case {
 			s.Exts = append(s.Exts, gen.CRLNumberExt([]byte{7}))
 		}
 	}
+	// one entry in the 3-length-byte class (64..80 KiB) now and then
+	if v2 && len(s.Entries) > 0 && rapid.IntRange(0, 24).Draw(t, "giant_entry") == 0 {
+		i := rapid.IntRange(0, len(s.Entries)-1).Draw(t, "giant_entry_idx")
+		s.Entries[i].Exts = []gen.Ext{gen.UnknownExt(rapid.IntRange(65500, 81000).Draw(t, "giant_entry_len"), false)}
+	}
 	// issuer with optional padding; alignment knob
 	pad := 0
-	switch rapid.IntRange(0, 3).Draw(t, "padmode") {
-	case 0:
-	case 1:
+	switch rapid.IntRange(0, 12).Draw(t, "padmode") {
+	case 0, 1, 2:
+	case 3, 4, 5:
 		pad = rapid.IntRange(1, 300).Draw(t, "pad_s")
+	case 6:
+		pad = rapid.IntRange(65400, 81000).Draw(t, "pad_g") // issuer in the 3-length-byte class
 	default:
 		pad = rapid.IntRange(3800, 4300).Draw(t, "pad_l")
 	}
@@ -264,7 +276,7 @@ func genCase(t *rapid.T) Case {
 				c.Aim, c.AimOff = which, off
 				break
 			}
-			if pad+delta > 4400 {
+			if pad+delta > 4400 && pad < 60000 || pad+delta > 81000 {
 				delta -= 4096
 			}
 			if pad+delta < 1 {
@@ -437,6 +449,19 @@ func runCase(c Case, x *ev.Ctx) error {
 	}
 	if c.Negative != "" {
 		x.Classf("negative-%s", c.Negative)
+	}
+	x.Classf("issuer-len-%s", sizeClass(len(c.Spec.IssuerDER)))
+	for _, e := range c.Spec.Entries {
+		if n := len(e.DER()); n >= 0x10000 {
+			x.Class("entry-len-0x83")
+			break
+		}
+	}
+	for _, e := range c.Spec.Exts {
+		if len(e.Value) >= 0x10000 {
+			x.Class("extblock-len-0x83")
+			break
+		}
 	}
 	for _, name := range []string{"der", "pem-lf", "pem-crlf"} {
 		p := filepath.Join(tmpDir, "crl-"+name)
